@@ -79,6 +79,10 @@ for nm, prm in {
     "ell-tip": (0, 0, 20, 2, 0, -10, math.radians(20)), "ell-side": (0, 0, 20, 2, 0, 80, math.radians(20)),
     "ell-2": (0, 0, 2, 1, 60, 0, math.pi), "ell-big": (0, 0, 1000, 700, 10, 0, 1.0), "ell-3pi2": (0, 0, 3, 7, 0, 0, 1.5 * math.pi),
     "ell-pi-neg": (0, 0, 3, 7, 200, 33, -math.pi), "ell-100": (0, 0, 100, 1, 45, 1, 0.5),
+    # end points exactly on the ellipse's axes (the quadrant tests of the angle <-> parameter conversion sit there)
+    "ell-ax-270": (0, 0, 10, 5, 0, 270, math.pi / 2), "ell-ax-90": (0, 0, 10, 5, 0, 90, math.pi / 2),
+    "ell-ax-180": (0, 0, 10, 5, 0, 180, -math.pi / 2), "ell-ax-0-neg": (0, 0, 10, 5, 0, 0, -math.pi / 2),
+    "ell-ax-rot90": (1, 2, 10, 5, 90, 270, 1.0), "ell-ax-rot180": (1, 2, 10, 5, 180, 90, -2.0),
 }.items():
     CURVES[nm] = ("A", prm)
 
